@@ -2,13 +2,16 @@
 from __future__ import annotations
 
 import ast
+import copy
 import itertools
+import re
 
 from ..boolfn import Opaque, TableEvaluator
+from ..cfg import call_may_raise
 from ..core import Ctx
-from ..lengths import LengthAnalysis
-from ..match import arg, call_name, calls, facts_at, local_defs, same_expr, single_def
-from ..model import AnalysisError, FuncInfo, chain, const_value, enclosing_stmt, norm, strip_cast, walk_no_nested
+from ..lengths import LengthAnalysis, protected
+from ..match import arg, call_name, calls, fact_of, facts_at, local_defs, same_expr, single_def, stores
+from ..model import NOCONST, AnalysisError, FuncInfo, chain, const_value, norm, strip_cast, walk_no_nested
 
 LEVEL = "other"
 EXPLANATION = (
@@ -17,7 +20,8 @@ EXPLANATION = (
     "TunnelExitSocket.sendto to transport.sendto and of datagram_received to tunnel_data passes a truthy "
     "is_allowed(<the very data emitted>); closed sets of callers for transport.sendto / exit_socket.sendto / enable / "
     "tunnel_data; exit_data dominated by destination != ('0.0.0.0', 0); enable() dominated by the previous-hop IP "
-    "comparison; the DataChecker classifiers are decision tables over their documented byte tests with guarded reads."
+    "comparison; the DataChecker classifiers are decision tables over the inspected quantities (length, byte slices, "
+    "unpacked header fields) evaluated on every region their comparisons can distinguish, with guarded reads."
 )
 
 ES = "ipv8/messaging/anonymization/exit_socket.py"
@@ -25,13 +29,147 @@ TC = "ipv8/messaging/anonymization/community.py"
 FLAGS = "self.overlay.settings.peer_flags"
 
 
+# ------------------------------------------------------------------------------------------ alias expansion
+# Rules compare expressions after replacing single-assignment locals by the expression they were assigned (deeply), so
+# `sock = self.exit_sockets[cid]; sock.enable()` is read as `self.exit_sockets[cid].enable()`.  Only values whose
+# re-evaluation has no effect are substituted: constants, names, attribute / subscript paths, arithmetic, comparisons and
+# calls of the pure getters / classifiers below.  A single-assignment local read before its assignment raises
+# UnboundLocalError, so no dominance test is needed: wherever the use evaluates, the definition has been evaluated.
+_PURE_CALLS = {"len", "bool", "bytes", "unpack_from", "struct.unpack_from", "self.overlay.get_prefix", "self.is_allowed"}
+_IMPURE_NODES = (ast.Await, ast.Yield, ast.YieldFrom, ast.NamedExpr, ast.Lambda, ast.ListComp, ast.SetComp, ast.DictComp,
+                 ast.GeneratorExp, ast.Starred)
+
+
+def _alias_value_ok(v: ast.AST) -> bool:
+    for n in ast.walk(v):
+        if isinstance(n, _IMPURE_NODES):
+            return False
+        if isinstance(n, ast.Call):
+            c = chain(n.func) or ""
+            if not (c in _PURE_CALLS or c.startswith("DataChecker.could_be_") or c.endswith(".get")):
+                return False
+    return True
+
+
+def _expand(fi: FuncInfo, e: ast.AST, depth: int = 6) -> ast.AST:
+    """Fresh copy of e in which every single-assignment local alias is replaced by its defining expression."""
+    def sub(n: ast.AST, depth: int) -> ast.AST:
+        n = strip_cast(n)
+        if isinstance(n, ast.Name):
+            if isinstance(n.ctx, ast.Load) and depth > 0:
+                d = single_def(fi, n.id)
+                if d is not None and d[0] is not None and _alias_value_ok(d[0]):
+                    v = sub(d[0], depth - 1)
+                    if d[1] is None:
+                        return v
+                    return ast.Subscript(value=v, slice=ast.Constant(value=d[1]), ctx=ast.Load())
+            return ast.Name(id=n.id, ctx=ast.Load())
+        new = copy.copy(n)
+        for field, val in ast.iter_fields(n):
+            if isinstance(val, ast.AST):
+                setattr(new, field, sub(val, depth))
+            elif isinstance(val, list):
+                setattr(new, field, [sub(x, depth) if isinstance(x, ast.AST) else x for x in val])
+        return new
+    return sub(e, depth)
+
+
+class _Canon(ast.NodeTransformer):
+    """Equivalent spellings -> one spelling (only applied to the private copies made by _expand)."""
+
+    def __init__(self, dict_get: bool = False, rename: dict[str, str] | None = None) -> None:
+        self.dict_get = dict_get
+        self.rename = rename or {}
+
+    def visit_Name(self, n: ast.Name) -> ast.AST:
+        if n.id in self.rename:
+            n.id = self.rename[n.id]
+        return n
+
+    def visit_Slice(self, n: ast.Slice) -> ast.AST:
+        self.generic_visit(n)
+        if isinstance(n.lower, ast.Constant) and n.lower.value == 0 and not isinstance(n.lower.value, bool):
+            n.lower = None              # x[0:k] == x[:k]
+        return n
+
+    def visit_Call(self, n: ast.Call) -> ast.AST:
+        self.generic_visit(n)
+        c = chain(n.func)
+        if c == "struct.unpack_from":
+            n.func = ast.Name(id="unpack_from", ctx=ast.Load())
+            c = "unpack_from"
+        if c == "unpack_from":
+            off = [k for k in n.keywords if k.arg == "offset"]
+            if off and len(n.args) == 2:
+                n.args = [*n.args, off[0].value]
+                n.keywords = [k for k in n.keywords if k.arg != "offset"]
+            if len(n.args) == 3 and isinstance(n.args[2], ast.Constant) and n.args[2].value == 0:
+                n.args = n.args[:2]     # offset 0 is the default
+        if self.dict_get and isinstance(n.func, ast.Attribute) and n.func.attr == "get" and not n.keywords and (
+                len(n.args) == 1 or (len(n.args) == 2 and isinstance(n.args[1], ast.Constant) and n.args[1].value is None)):
+            # d.get(k) denotes d[k] wherever the result is known to be truthy / not None (the rules ask for that fact)
+            return ast.Subscript(value=n.func.value, slice=n.args[0], ctx=ast.Load())
+        return n
+
+
+def _canon(e: ast.AST, *, dict_get: bool = False, rename: dict[str, str] | None = None) -> ast.AST:
+    return _Canon(dict_get, rename).visit(e)
+
+
+def _xnorm(fi: FuncInfo, e: ast.AST, *, dict_get: bool = False) -> str:
+    return norm(_canon(_expand(fi, e), dict_get=dict_get))
+
+
+def _param_root(fi: FuncInfo, e: ast.AST | None) -> str | None:
+    """The never-rebound parameter that e denotes (directly or through pure single-assignment aliases), else None."""
+    if e is None:
+        return None
+    x = _expand(fi, e)
+    if isinstance(x, ast.Name) and x.id in fi.params() and not local_defs(fi, x.id):
+        return x.id
+    return None
+
+
+class _Table(TableEvaluator):
+    """TableEvaluator that reads `a not in b` / `a != b` as the negation of the atom `a in b` / `a == b`."""
+
+    @staticmethod
+    def _twin(e: ast.AST) -> ast.AST | None:
+        if isinstance(e, ast.Compare) and len(e.ops) == 1 and isinstance(e.ops[0], (ast.NotIn, ast.NotEq)):
+            op = ast.In() if isinstance(e.ops[0], ast.NotIn) else ast.Eq()
+            return ast.Compare(left=e.left, ops=[op], comparators=e.comparators)
+        return None
+
+    def discover(self) -> list[str]:
+        super().discover()
+        for n in ast.walk(self.fi.node):
+            t = self._twin(n)
+            if t is not None:
+                k = self.atom_of(t)
+                if k is not None:
+                    self.atoms_seen.add(k)
+        return sorted(self.atoms_seen)
+
+    def eval(self, e, env):
+        t = self._twin(strip_cast(e))
+        if t is not None and self.atom_of(t) is not None:
+            return not self.truth(super().eval(t, env))
+        return super().eval(e, env)
+
+
+# ------------------------------------------------------------------------------------------ policy
 def _atom_is_allowed(fi: FuncInfo):
     data = fi.params()[1]
 
     def atom(e):
         e = strip_cast(e)
+        if not isinstance(e, (ast.Name, ast.Call, ast.Compare)):
+            return None
+        if isinstance(e, ast.Name) and not isinstance(e.ctx, ast.Load):
+            return None
+        e = _canon(_expand(fi, e))
         if isinstance(e, ast.Call) and chain(e.func) in ("DataChecker.could_be_bt", "DataChecker.could_be_ipv8") \
-                and len(e.args) == 1 and chain(e.args[0]) == data:
+                and len(e.args) == 1 and not e.keywords and chain(e.args[0]) == data:
             return "bt" if chain(e.func).endswith("bt") else "v8"
         if isinstance(e, ast.Compare) and len(e.ops) == 1:
             l, op, r = e.left, e.ops[0], e.comparators[0]
@@ -50,7 +188,7 @@ def rule_policy_table(ctx: Ctx) -> None:
     data = fi.params()[1]
     ctx.check(not local_defs(fi, data), "policy-table", fi, fi.node, "is_allowed judges the data it was given",
               "is_allowed rebinds its data parameter before classifying it")
-    ev = TableEvaluator(fi, _atom_is_allowed(fi))
+    ev = _Table(fi, _atom_is_allowed(fi))
     atoms = ["bt", "v8", "BT", "V8", "own"]
     found = ev.discover()
     ctx.check(set(found) == set(atoms), "policy-table", fi, fi.node, f"atoms of is_allowed = {atoms}",
@@ -90,12 +228,16 @@ def rule_policy_table(ctx: Ctx) -> None:
 
 
 def _gate_fact(fi: FuncInfo, facts, data_expr: ast.AST) -> bool:
+    """A dominating truthy `self.is_allowed(p)` (possibly held in a local) where p is the never-rebound parameter that the
+    emitted expression denotes."""
+    root = _param_root(fi, data_expr)
+    if root is None:
+        return False
     for f in facts:
         if f.op == "truthy" and f.pos:
-            e = strip_cast(f.left)
-            if isinstance(e, ast.Call) and chain(e.func) == "self.is_allowed" and len(e.args) == 1 \
-                    and same_expr(e.args[0], data_expr) and isinstance(data_expr, ast.Name) \
-                    and not local_defs(fi, data_expr.id):
+            e = _expand(fi, f.left)
+            if isinstance(e, ast.Call) and chain(e.func) == "self.is_allowed" and len(e.args) == 1 and not e.keywords \
+                    and isinstance(e.args[0], ast.Name) and e.args[0].id == root:
                 return True
     return False
 
@@ -108,7 +250,7 @@ def rule_gates(ctx: Ctx) -> None:
     ctx.anchor(emit, "transport.sendto call in TunnelExitSocket.sendto")
     for c in emit:
         facts = facts_at(cfg, c)
-        ok = bool(c.args) and _gate_fact(sendto, facts, c.args[0])
+        ok = _gate_fact(sendto, facts, arg(c, 0, "data"))
         ctx.check(ok, "gate-out", sendto, c, "transport.sendto(data, ..) dominated by truthy is_allowed(data) on the same data",
                   "data can reach the outside socket without passing the exit policy (or a different buffer is checked)",
                   [str(f) for f in facts])
@@ -170,24 +312,40 @@ def rule_gates(ctx: Ctx) -> None:
     for name in ("datagram_received_ipv4", "datagram_received_ipv6"):
         f2 = repo.method("TunnelExitSocket", name, ES)
         fw = calls(f2, "self.datagram_received")
-        others = [c for c in calls(f2) if chain(c.func) not in ("self.datagram_received", "UDPv4Address", "UDPv6Address")]
+        # anything that may have an effect besides the forward (logging / len / str / address constructors have none here)
+        others = [c for c in calls(f2) if chain(c.func) not in ("self.datagram_received", "UDPv4Address", "UDPv6Address")
+                  and call_may_raise(c)]
         ctx.check(bool(fw) and not others, "gate-in", f2, f2.node, f"{name} only forwards to datagram_received",
                   f"{name} does something other than forwarding to the gated datagram_received")
         for c in fw:
-            ctx.check(chain(arg(c, 0)) == f2.params()[1], "gate-in", f2, c, f"{name} forwards the received data unchanged",
+            ctx.check(_param_root(f2, arg(c, 0, "data")) == f2.params()[1], "gate-in", f2, c,
+                      f"{name} forwards the received data unchanged",
                       "the inbound callback forwards different data than it received")
 
 
 def _is_exit_socket_alias(fi: FuncInfo, c: ast.Call) -> bool:
     f = c.func
     if isinstance(f, ast.Attribute) and isinstance(f.value, ast.Name):
-        d = single_def(fi, f.value.id)
-        if d is not None and "exit_sockets" in (chain(d[0]) or norm(d[0])):
-            return True
-        t = None
+        for _, v, _ in local_defs(fi, f.value.id):
+            if v is not None and "exit_sockets" in (chain(v) or norm(v)):
+                return True
         for p in fi.node.args.args:
             if p.arg == f.value.id and p.annotation is not None and "TunnelExitSocket" in norm(p.annotation):
                 return True
+    return False
+
+
+def _enabled_edge(u, lab, is_enabled) -> bool:
+    """Does leaving cond node u by the edge `lab` establish that the registered socket is enabled?"""
+    if u.kind != "cond" or lab not in (True, False):
+        return False
+    f = fact_of(u.ast, lab)
+    if f.op == "truthy":
+        return f.pos and is_enabled(f.left)
+    if f.op in ("is", "eq"):
+        for a, b in ((f.left, f.right), (f.right, f.left)):
+            if is_enabled(a) and isinstance(b, ast.Constant) and isinstance(b.value, bool):
+                return f.pos == b.value
     return False
 
 
@@ -200,16 +358,14 @@ def rule_null_and_prev_hop(ctx: Ctx) -> None:
         dest = arg(c, 2, "destination")
         facts = facts_at(cfg, c)
         ok = False
+        xdest = _expand(on_data, dest) if dest is not None else None
         for f in facts:
             if f.op == "eq" and not f.pos and dest is not None:
-                sides = [f.left, f.right]
-                if any(same_expr(s, dest) for s in sides) and any(const_value(s) == ("0.0.0.0", 0) for s in sides):
+                sides = [_expand(on_data, f.left), _expand(on_data, f.right)]
+                if any(same_expr(s, xdest) for s in sides) and any(const_value(s) == ("0.0.0.0", 0) for s in sides):
                     ok = True
         # destination is the payload's dest_address
-        src_ok = False
-        if isinstance(dest, ast.Name):
-            d = single_def(on_data, dest.id)
-            src_ok = d is not None and (chain(d[0]) or "").endswith(".dest_address")
+        src_ok = xdest is not None and (chain(xdest) or "").endswith(".dest_address")
         ctx.check(ok and src_ok, "null-destination", on_data, c, "exit_data dominated by destination != ('0.0.0.0', 0)",
                   "data addressed to 0.0.0.0:0 can be handed to the exit socket", [str(f) for f in facts])
     for m, fi, c in repo.callers_of_name("exit_data"):
@@ -220,31 +376,56 @@ def rule_null_and_prev_hop(ctx: Ctx) -> None:
     cfg = ctx.cfg(ex)
     params = ex.params()
     cid, sock = params[1], params[2]
+    reg = f"self.exit_sockets[{cid}]"          # the socket registered under the cell's circuit id
+
+    def X(e: ast.AST) -> str:
+        return _xnorm(ex, e, dict_get=True)
+
+    # the comparison must be about the address / circuit id the caller passed and about the registered hop, not about
+    # something exit_data itself wrote just before
+    for p in (cid, sock):
+        ctx.check(not local_defs(ex, p), "previous-hop", ex, ex.node, f"exit_data judges the {p} it was given",
+                  f"exit_data rebinds its parameter {p}: the previous-hop comparison no longer concerns the caller's value")
     en = ctx.anchor([c for c in calls(ex) if call_name(c) == "enable"], "enable() call in exit_data")
+    sends = [c for c in calls(ex) if call_name(c) == "sendto"]
+    sinks = {n for c in [*en, *sends] for n in cfg.nodes_for(c)}
+    for st, tgt in stores(ex, lambda c: True):
+        if isinstance(tgt, ast.Name) or not X(tgt).startswith("self.exit_sockets"):
+            continue
+        before = any(s in cfg.reach(cfg.nodes_for(st)) for s in sinks)
+        ctx.check(not before, "previous-hop", ex, st, "exit_data does not rewrite the registered socket / hop before using it",
+                  "exit_data overwrites the registered exit socket or its hop address before the previous-hop comparison / send")
     for c in en:
         facts = facts_at(cfg, c)
-        recv = c.func.value
-        ok_recv = norm(recv) == f"self.exit_sockets[{cid}]"
+        ok_recv = X(c.func.value) == reg
         ok = False
         for f in facts:
             if f.op == "eq" and f.pos:
-                sides = {norm(f.left), norm(f.right)}
-                if sides == {f"{sock}[0]", f"self.exit_sockets[{cid}].hop.address[0]"}:
+                sides = {X(f.left), X(f.right)}
+                if sides == {f"{sock}[0]", f"{reg}.hop.address[0]"}:
                     ok = True
         ctx.check(ok and ok_recv, "previous-hop", ex, c, "enable() dominated by sock_addr[0] == exit_sockets[cid].hop.address[0]",
                   "the outside socket can be opened by data that did not come from the circuit's previous hop",
                   [str(f) for f in facts])
     # the send itself: either socket already enabled or just enabled by the checked branch
-    for c in [c for c in calls(ex) if call_name(c) == "sendto"]:
+    en_nodes = [n for e in en for n in cfg.nodes_for(e)]
+    for c in sends:
         facts = facts_at(cfg, c)
-        known = any(f.op == "in" and f.pos and norm(f.left) == cid and chain(f.right) == "self.exit_sockets" for f in facts)
-        ctx.check(known and norm(c.func.value) == f"self.exit_sockets[{cid}]", "previous-hop", ex, c,
+        known = False
+        for f in facts:
+            if f.op == "in" and f.pos and X(f.left) == cid and chain(_expand(ex, f.right)) == "self.exit_sockets":
+                known = True
+            # `s = self.exit_sockets.get(cid)` + `s` truthy / `s is not None`
+            if f.op == "truthy" and f.pos and X(f.left) == reg:
+                known = True
+            if f.op == "is" and not f.pos and {X(f.left), X(f.right)} == {reg, "None"}:
+                known = True
+        ctx.check(known and X(c.func.value) == reg, "previous-hop", ex, c,
                   "sendto only on the exit socket registered under this circuit id",
                   "data is handed to an exit socket other than the one registered for the cell's circuit id")
         # reaching sendto with a disabled socket must have gone through the IP comparison: every path to sendto
         # passes either `enabled` truthy or the enable() call
-        en_nodes = [n for e in en for n in cfg.nodes_for(e)]
-        enabled_edges = lambda u, v, lab: (u.kind == "cond" and norm(u.ast) == f"self.exit_sockets[{cid}].enabled" and lab is True)  # noqa: E731
+        enabled_edges = lambda u, v, lab: _enabled_edge(u, lab, lambda e: X(e) == f"{reg}.enabled")  # noqa: E731
         for sn in cfg.nodes_for(c):
             r = cfg.reach(cut_nodes=en_nodes, cut_edge=enabled_edges)
             ctx.check(sn not in r, "previous-hop", ex, c, "send requires an enabled socket or the checked enable()",
@@ -259,8 +440,9 @@ def rule_null_and_prev_hop(ctx: Ctx) -> None:
         if not m.relpath.startswith("ipv8/messaging/anonymization/"):
             continue
         for n in ast.walk(m.tree):
-            if isinstance(n, ast.Assign):
-                for t in n.targets:
+            if isinstance(n, (ast.Assign, ast.AnnAssign, ast.AugAssign)):
+                tgts = n.targets if isinstance(n, ast.Assign) else [n.target]
+                for t in [e for t in tgts for e in (t.elts if isinstance(t, (ast.Tuple, ast.List)) else [t])]:
                     if isinstance(t, ast.Attribute) and t.attr == "enabled":
                         fi = repo.function_of(n)
                         ok = fi is not None and fi.qualname in ("TunnelExitSocket.enable", "TunnelExitSocket.__init__")
@@ -271,37 +453,169 @@ def rule_null_and_prev_hop(ctx: Ctx) -> None:
 
 
 # ------------------------------------------------------------------------------------------ classifiers
-def _canon_atom(data: str):
-    def atom(e):
-        e = strip_cast(e)
-        if isinstance(e, ast.Compare):
-            txt = norm(e)
-            if data in {n.id for n in ast.walk(e) if isinstance(n, ast.Name)} or any(
-                    isinstance(n, ast.Name) and n.id in ("byte1", "byte2") for n in ast.walk(e)):
-                return txt
-        return None
-    return atom
-
-
+# A classifier is a function of a few inspected QUANTITIES of its argument (its length, constant byte slices, fields unpacked
+# at constant offsets, bit fields of those) that are only ever compared with constants.  The documented behaviour is a
+# predicate over those quantities.  Each quantity gets the finite set of values {c-1, c, c+1 : c a constant it is compared
+# with, in the code or in the documentation} (integers) / {the constants, one other value} (byte strings): every region the
+# comparisons can tell apart contains one of them, so agreement on the product of these sets is agreement on all inputs (the
+# quantities are treated as independent, which only adds rows).  How the comparisons are spelt, ordered, negated, split over
+# guard clauses or held in locals does not matter.
+_L, _B0, _B1, _BL = "len(data)", "data[:1]", "data[1:2]", "data[-1:]"
+_T, _V, _E = "unpack_from('!BB', data)[0] >> 4", "unpack_from('!BB', data)[0] & 15", "unpack_from('!BB', data)[1]"
+_A0, _A8 = "unpack_from('!I', data)[0]", "unpack_from('!I', data, 8)[0]"
 CLASSIFIER_SPEC = {
-    # name: (atoms in canonical text, spec function over atom dict)
-    "could_be_ipv8": (["len(data) >= 23", "data[0:1] == b'\\x00'", "data[1:2] in [b'\\x01', b'\\x02']"],
-                      lambda a: a["len(data) >= 23"] and a["data[0:1] == b'\\x00'"] and a["data[1:2] in [b'\\x01', b'\\x02']"]),
-    "could_be_dht": (["len(data) > 1", "data[0:1] == b'd'", "data[-1:] == b'e'"],
-                     lambda a: a["len(data) > 1"] and a["data[0:1] == b'd'"] and a["data[-1:] == b'e'"]),
-    "could_be_utp": (["len(data) < 20", "0 <= byte1 >> 4 <= 4", "byte1 & 15 == 1", "0 <= byte2 <= 3"],
-                     lambda a: (not a["len(data) < 20"]) and a["0 <= byte1 >> 4 <= 4"] and a["byte1 & 15 == 1"] and a["0 <= byte2 <= 3"]),
-    "could_be_udp_tracker": (["len(data) >= 8", "0 <= unpack_from('!I', data, 0)[0] <= 3", "len(data) >= 12",
-                              "0 <= unpack_from('!I', data, 8)[0] <= 3"],
-                             lambda a: (a["len(data) >= 8"] and a["0 <= unpack_from('!I', data, 0)[0] <= 3"])
-                             or (a["len(data) >= 12"] and a["0 <= unpack_from('!I', data, 8)[0] <= 3"])),
+    # name: ({quantity: constants of the documented tests}, documented predicate over the quantities)
+    "could_be_ipv8": ({_L: [23], _B0: [b"\x00"], _B1: [b"\x01", b"\x02"]},
+                      lambda v: v[_L] >= 23 and v[_B0] == b"\x00" and v[_B1] in (b"\x01", b"\x02")),
+    "could_be_dht": ({_L: [1], _B0: [b"d"], _BL: [b"e"]},
+                     lambda v: v[_L] > 1 and v[_B0] == b"d" and v[_BL] == b"e"),
+    "could_be_utp": ({_L: [20], _T: [0, 4], _V: [1], _E: [0, 3]},
+                     lambda v: v[_L] >= 20 and 0 <= v[_T] <= 4 and v[_V] == 1 and 0 <= v[_E] <= 3),
+    "could_be_udp_tracker": ({_L: [8, 12], _A0: [0, 3], _A8: [0, 3]},
+                             lambda v: (v[_L] >= 8 and 0 <= v[_A0] <= 3) or (v[_L] >= 12 and 0 <= v[_A8] <= 3)),
 }
+_INT_OPS = (ast.RShift, ast.LShift, ast.BitAnd, ast.BitOr, ast.BitXor, ast.Add, ast.Sub, ast.Mult, ast.FloorDiv, ast.Mod)
 
 
-def _subject(atom_text: str) -> str:
-    """The inspected quantity of a canonical atom, with the numeric bounds blanked."""
-    import re
-    return re.sub(r"\b\d+\b", "#", atom_text)
+def _is_int_const(e: ast.AST) -> bool:
+    return isinstance(e, ast.Constant) and isinstance(e.value, int) and not isinstance(e.value, bool)
+
+
+def _quantity_kind(x: ast.AST) -> str | None:
+    """'int' / 'bytes' for a canonical quantity of `data`, None for anything the table cannot give a value domain."""
+    if isinstance(x, ast.Call) and chain(x.func) == "len" and len(x.args) == 1 and chain(x.args[0]) == "data":
+        return "int"
+    if isinstance(x, ast.Subscript):
+        if chain(x.value) == "data":
+            if isinstance(x.slice, ast.Slice):
+                bounds = [b for b in (x.slice.lower, x.slice.upper) if b is not None]
+                if x.slice.step is None and all(const_value(b) is not NOCONST for b in bounds):
+                    return "bytes"
+                return None
+            return "int" if const_value(x.slice) is not NOCONST else None
+        v = x.value
+        if isinstance(v, ast.Call) and chain(v.func) == "unpack_from" and 2 <= len(v.args) <= 3 and not v.keywords \
+                and isinstance(v.args[0], ast.Constant) and chain(v.args[1]) == "data" \
+                and all(_is_int_const(a) for a in v.args[2:]) and _is_int_const(x.slice):
+            return "int"
+        return None
+    if isinstance(x, ast.BinOp) and isinstance(x.op, _INT_OPS):
+        if _is_int_const(x.right) and _quantity_kind(x.left) == "int":
+            return "int"
+        if _is_int_const(x.left) and _quantity_kind(x.right) == "int":
+            return "int"
+    return None
+
+
+def _shape(text: str) -> str:
+    """A quantity with its numbers blanked: `data[1:2]` and `data[2:3]` are the same kind of quantity."""
+    return re.sub(r"\b\d+\b", "#", text)
+
+
+class _QuantityTable(TableEvaluator):
+    """Evaluates a classifier body for concrete values of its quantities (env['__atoms__']: quantity text -> value)."""
+
+    def __init__(self, repo, fi: FuncInfo) -> None:
+        super().__init__(fi, lambda e: None, on_effect=_classifier_effect)
+        self.repo = repo
+        self.dname = fi.params()[0]
+
+    # -- operands
+    def operand(self, e: ast.AST):
+        """('const', value) | ('quantity', text, kind)"""
+        x = _canon(_expand(self.fi, e), rename={self.dname: "data"} if self.dname != "data" else None)
+        v = const_value(x)
+        if v is NOCONST and isinstance(x, (ast.List, ast.Set, ast.Tuple)):
+            vs = [const_value(el) for el in x.elts]
+            if all(el is not NOCONST for el in vs):
+                v = tuple(vs)
+        if v is not NOCONST:
+            return ("const", v)
+        if not any(isinstance(n, ast.Name) and n.id == "data" for n in ast.walk(x)):
+            v = self.repo.resolve_const(self.fi.module, e, self.fi.cls)
+            if v is not NOCONST:
+                return ("const", v)
+        kind = _quantity_kind(x)
+        if kind is None:
+            raise AnalysisError(f"undecided: classifier {self.fi.name} compares `{norm(x)}`, not a length / constant slice / "
+                                f"unpacked field of its argument")
+        return ("quantity", norm(x), kind)
+
+    def compares(self):
+        for n in walk_no_nested(self.fi.node):
+            if isinstance(n, ast.Compare):
+                yield n, [self.operand(o) for o in [n.left, *n.comparators]]
+
+    def quantities(self) -> dict[str, tuple[str, set]]:
+        """quantity text -> (kind, constants it is compared with)"""
+        out: dict[str, tuple[str, set]] = {}
+        for n, ops in self.compares():
+            qs = [o for o in ops if o[0] == "quantity"]
+            consts = set()
+            for o in ops:
+                if o[0] == "const":
+                    consts |= set(o[1]) if isinstance(o[1], tuple) else {o[1]}
+            for i, o in enumerate(ops):
+                if o[0] != "quantity":
+                    continue
+                nb = [ops[j] for j in (i - 1, i + 1) if 0 <= j < len(ops)]
+                if any(b[0] == "quantity" for b in nb):
+                    raise AnalysisError(f"undecided: classifier {self.fi.name} compares two inspected quantities with each "
+                                        f"other in `{norm(n)}`")
+                out.setdefault(o[1], (o[2], set()))[1].update(consts)
+            if not qs:
+                continue
+            for op, (a, b) in zip(n.ops, zip(ops, ops[1:])):
+                q = a if a[0] == "quantity" else b
+                if q[0] == "quantity" and q[2] == "bytes" and not isinstance(op, (ast.Eq, ast.NotEq, ast.In, ast.NotIn)):
+                    raise AnalysisError(f"undecided: classifier {self.fi.name} orders a byte slice in `{norm(n)}`")
+                if isinstance(op, (ast.Is, ast.IsNot)):
+                    raise AnalysisError(f"undecided: identity test `{norm(n)}` in classifier {self.fi.name}")
+        return out
+
+    # -- evaluation
+    def eval(self, e, env):
+        e0 = strip_cast(e)
+        if isinstance(e0, ast.Compare):
+            vals = []
+            for o in [e0.left, *e0.comparators]:
+                r = self.operand(o)
+                if r[0] == "const":
+                    vals.append(r[1])
+                elif r[1] in env["__atoms__"]:
+                    vals.append(env["__atoms__"][r[1]])
+                else:
+                    raise AnalysisError(f"decision table: quantity {r[1]} has no value")
+            try:
+                for op, a, b in zip(e0.ops, vals, vals[1:]):
+                    if not _CMP[type(op)](a, b):
+                        return False
+            except (TypeError, KeyError) as ex:
+                raise AnalysisError(f"undecided: cannot evaluate `{norm(e0)}` in classifier {self.fi.name}: {ex}") from None
+            return True
+        return super().eval(e, env)
+
+
+_CMP = {ast.Eq: lambda a, b: a == b, ast.NotEq: lambda a, b: a != b, ast.Lt: lambda a, b: a < b, ast.LtE: lambda a, b: a <= b,
+        ast.Gt: lambda a, b: a > b, ast.GtE: lambda a, b: a >= b, ast.In: lambda a, b: a in b, ast.NotIn: lambda a, b: a not in b}
+
+
+def _domain(kind: str, consts) -> list:
+    if kind == "int":
+        cs = [c for c in consts if isinstance(c, int) and not isinstance(c, bool)]
+        return sorted({c + d for c in cs for d in (-1, 0, 1)}) or [0]
+    cs = sorted(c for c in consts if isinstance(c, bytes))
+    other = b"\xfe"
+    while other in cs:
+        other += b"\xfe"
+    return [*cs, other]
+
+
+class _AliasLengths(LengthAnalysis):
+    """LengthAnalysis that also reads a length guard through a local holding `len(x)` (`size = len(data); if size >= 8`)."""
+
+    def _len_of(self, e: ast.AST) -> str | None:
+        return super()._len_of(_expand(self.fi, e))
 
 
 def rule_classifiers(ctx: Ctx) -> None:
@@ -311,72 +625,81 @@ def rule_classifiers(ctx: Ctx) -> None:
     bt = dc.methods.get("could_be_bt")
     ctx.anchor(bt, "DataChecker.could_be_bt")
     data = bt.params()[0]
-    rets = [n for n in walk_no_nested(bt.node) if isinstance(n, ast.Return)]
-    ok = False
-    if len(rets) == 1 and isinstance(rets[0].value, ast.BoolOp) and isinstance(rets[0].value.op, ast.Or):
-        names = []
-        for v in rets[0].value.values:
-            v = strip_cast(v)
-            if isinstance(v, ast.Call) and len(v.args) == 1 and chain(v.args[0]) == data:
-                names.append(chain(v.func))
-        ok = sorted(names) == ["DataChecker.could_be_dht", "DataChecker.could_be_udp_tracker", "DataChecker.could_be_utp"] \
-            and len(rets[0].value.values) == 3
+    ctx.check(not local_defs(bt, data), "classifier-shape", bt, bt.node, "could_be_bt inspects its own argument",
+              "could_be_bt rebinds its data parameter")
+
+    def bt_atom(e):
+        e = strip_cast(e)
+        if not (isinstance(e, ast.Call) or (isinstance(e, ast.Name) and isinstance(e.ctx, ast.Load))):
+            return None
+        x = _expand(bt, e)
+        if isinstance(x, ast.Call) and len(x.args) == 1 and not x.keywords and chain(x.args[0]) == data:
+            tg = {t.qualname for t in repo.resolve_call(bt, x)}
+            if len(tg) == 1 and next(iter(tg)).startswith("DataChecker.could_be_"):
+                return next(iter(tg)).split(".", 1)[1]
+        return None
+    want_atoms = ["could_be_dht", "could_be_udp_tracker", "could_be_utp"]
+    ev = _Table(bt, bt_atom)
+    found = ev.discover()
+    ok = found == want_atoms
+    if ok:
+        for vals in itertools.product([False, True], repeat=3):
+            got = ev.run(dict(zip(want_atoms, vals)))
+            if isinstance(got, Opaque):
+                raise AnalysisError(f"could_be_bt returns an expression the table evaluator cannot decide: {got}")
+            ok = ok and bool(got) == any(vals)
     ctx.check(ok, "classifier-shape", bt, bt.node, "could_be_bt = utp(data) or udp_tracker(data) or dht(data)",
               "could_be_bt is no longer exactly the disjunction of the three BitTorrent classifiers on its argument")
-    for name, (atoms, spec) in CLASSIFIER_SPEC.items():
+    for name, (spec_q, spec) in CLASSIFIER_SPEC.items():
         fi = dc.methods.get(name)
         ctx.anchor(fi, f"DataChecker.{name}")
         dname = fi.params()[0]
         ctx.check(not local_defs(fi, dname), "classifier-shape", fi, fi.node, f"{name} inspects its own argument",
                   f"{name} rebinds its data parameter")
-        canon = [a.replace("data", dname) for a in atoms]
-
-        def atom_of(e, canon=canon, dname=dname):
-            e = strip_cast(e)
-            if isinstance(e, ast.Compare):
-                t = norm(e)
-                if t in canon:
-                    return t
-                names = {n.id for n in ast.walk(e) if isinstance(n, ast.Name)}
-                if dname in names or names & {"byte1", "byte2"}:
-                    return "?" + t
-            return None
-        ev = TableEvaluator(fi, atom_of, on_effect=_classifier_effect)
-        found = ev.discover()
-        unknown = [a[1:] for a in found if a.startswith("?")]
-        if unknown:
-            subjects = {_subject(a) for a in canon}
-            for u in unknown:
-                if _subject(u) in subjects:
-                    ctx.check(False, "classifier-shape", fi, u, f"{name}: byte test `{u}`",
-                              f"{name} tests `{u}`: same quantity as the documented test but different bounds "
-                              f"(documented: {[a for a in canon if _subject(a) == _subject(u)]})")
-                else:
-                    raise AnalysisError(f"classifier {name}: unknown byte test `{u}` (not in the documented table)")
-            continue
-        missing = [a for a in canon if a not in found]
-        if missing:
-            ctx.check(False, "classifier-shape", fi, fi.node, f"{name}: all documented byte tests present",
-                      f"{name} no longer performs the documented test(s) {missing}")
-            continue
+        ev = _QuantityTable(repo, fi)
+        code_q = ev.quantities()
+        kinds = {q: ("bytes" if isinstance(cs[0], bytes) else "int") for q, cs in spec_q.items()}
+        consts = {q: set(cs) for q, cs in spec_q.items()}
+        for q, (kind, cs) in code_q.items():
+            if q in kinds and kinds[q] != kind:
+                raise AnalysisError(f"classifier {name}: quantity {q} changed its type")
+            kinds.setdefault(q, kind)
+            consts.setdefault(q, set()).update(cs)
+        qs = sorted(kinds)
+        doms = [_domain(kinds[q], consts[q]) for q in qs]
+        rows = 1
+        for d in doms:
+            rows *= len(d)
+        if rows > 50000:
+            raise AnalysisError(f"undecided: classifier {name} has a decision table of {rows} rows")
         bad = None
-        for vals in itertools.product([False, True], repeat=len(canon)):
-            env = dict(zip(canon, vals))
+        nbad = 0
+        for vals in itertools.product(*doms):
+            env = dict(zip(qs, vals))
             got = ev.run(env)
-            want = spec({a.replace(dname, "data"): v for a, v in env.items()})
             if isinstance(got, Opaque):
                 raise AnalysisError(f"classifier {name} returns undecidable expression {got}")
-            okr = bool(got) == bool(want)
-            ctx.instance("classifier-shape", fi.where, f"{name} row {vals} -> {bool(got)}", ok=okr)
-            if not okr and bad is None:
-                bad = (env, got, want)
+            want = spec(env)
+            if bool(got) != bool(want):
+                nbad += 1
+                if bad is None:
+                    bad = (env, got, want)
+        extra = [q for q in code_q if q not in spec_q]
+        if bad and any(_shape(q) not in {_shape(s) for s in spec_q} for q in extra):
+            # a quantity of a kind the documentation does not mention: cannot tell a re-spelling from a change
+            raise AnalysisError(f"undecided: classifier {name} tests {extra}, not among the documented quantities {sorted(spec_q)}")
+        ctx.instance("classifier-shape", fi.where,
+                     f"{name}: {rows} rows over {qs} agree with the documented table", ok=bad is None)
         if bad:
+            missing = [q for q in spec_q if q not in code_q]
             ctx.violation("classifier-shape", fi, fi.node,
-                          f"{name} disagrees with its documented decision table, e.g. {bad[0]} -> {bad[1]} (documented {bad[2]})")
+                          f"{name} disagrees with its documented decision table on {nbad} of {rows} rows, e.g. {bad[0]} -> "
+                          f"{bad[1]} (documented {bad[2]})"
+                          + (f"; documented quantities no longer tested: {missing}" if missing else "")
+                          + (f"; undocumented quantities tested: {extra}" if extra else ""))
         # guarded reads
-        la = LengthAnalysis(repo, fi, ctx.cfg(fi), {})
+        la = _AliasLengths(repo, fi, ctx.cfg(fi), {})
         for node, base, need in [*la.index_sites(), *la.unpack_sites()]:
-            from ..lengths import protected
             if protected(node, fi):
                 continue
             have, used = la.min_len(base, node)
@@ -430,6 +753,15 @@ WITNESSES = [
     {"name": "enable on mismatch too", "file": TC, "rule": "previous-hop",
      "old": "                self.logger.error(\"Dropping outbound relayed packet: IP's are %s != %s\",\n                                  str(sock_addr), str(self.exit_sockets[circuit_id].hop.address))\n                return",
      "new": "                self.logger.error(\"Dropping outbound relayed packet: IP's are %s != %s\",\n                                  str(sock_addr), str(self.exit_sockets[circuit_id].hop.address))"},
+    {"name": "previous hop compared with itself", "file": TC, "rule": "previous-hop",
+     "old": "        if circuit_id not in self.exit_sockets:\n            self.logger.error(\"Dropping data packets with unknown circuit_id\")",
+     "new": "        sock_addr = self.exit_sockets[circuit_id].hop.address\n        if circuit_id not in self.exit_sockets:\n            self.logger.error(\"Dropping data packets with unknown circuit_id\")"},
+    {"name": "hop address overwritten before the comparison", "file": TC, "rule": "previous-hop",
+     "old": "        if not self.exit_sockets[circuit_id].enabled:\n            # Check that we got the data from the correct IP.",
+     "new": "        self.exit_sockets[circuit_id].hop.address = sock_addr\n        if not self.exit_sockets[circuit_id].enabled:\n            # Check that we got the data from the correct IP."},
+    {"name": "ipv8 length guard clause one byte short", "file": ES, "rule": "classifier-shape",
+     "old": "return len(data) >= 23 and data[0:1] == b\"\\x00\" and data[1:2] in [b\"\\x01\", b\"\\x02\"]",
+     "new": "if 22 > len(data):\n            return False\n        return data[:1] == b\"\\x00\" and data[1:2] in (b\"\\x01\", b\"\\x02\")"},
     {"name": "exit socket enabled at join", "file": TC, "rule": "previous-hop.who",
      "old": "        self.exit_sockets[circuit_id] = TunnelExitSocket(circuit_id, Hop(peer, session_keys), self)\n",
      "new": "        self.exit_sockets[circuit_id] = TunnelExitSocket(circuit_id, Hop(peer, session_keys), self)\n        self.exit_sockets[circuit_id].enable()\n"},
